@@ -134,6 +134,17 @@ where
         if s.verify(kp2.public_key(), Some(&msgs), hdr.as_deref()).is_ok() {
             return Some("signature verifies under another public key".into());
         }
+        // every single-bit flip of the 80 signature octets must be refused by the decoder or by verify
+        let enc = s.to_bytes();
+        for k in 0..640usize {
+            let mut t = enc;
+            t[k / 8] ^= 1u8 << (k % 8);
+            if let Ok(s3) = Signature::<BBSplus<CS>>::from_bytes(&t) {
+                if s3.verify(&pk, Some(&msgs), hdr.as_deref()).is_ok() {
+                    return Some(format!("signature with bit {} of octet {} flipped still verifies", k % 8, k / 8));
+                }
+            }
+        }
         None
     })
 }
@@ -257,6 +268,16 @@ where
         h2.push(7);
         if p2.proof_verify(&pk, Some(&dm), Some(&d), Some(&h2), ph.as_deref()).is_ok() {
             return Some("proof verifies with another header".into());
+        }
+        // surplus, never-signed disclosed messages must be refused
+        let mut dm3 = dm.clone();
+        dm3.push(vec![0xEE]);
+        if p2.proof_verify(&pk, Some(&dm3), Some(&d), hdr.as_deref(), ph.as_deref()).is_ok() {
+            return Some("proof verifies for a statement with a surplus disclosed message".into());
+        }
+        // a plain proof must not be accepted by the blind verifier
+        if p2.blind_proof_verify(&pk, hdr.as_deref(), ph.as_deref(), None, Some(&dm), None, Some(&d), None).is_ok() {
+            return Some("plain proof accepted by blind_proof_verify".into());
         }
         let mut ph2 = ph.clone().unwrap_or_default();
         ph2.push(7);
